@@ -54,7 +54,7 @@ func geometricAccumulation(c *Ctx, ds []*declInfo) {
 					return true
 				}
 				n++
-				c.bad(R, d.name+"#"+acc.Name(), c.P.Pos(as.Pos()), fmt.Sprintf("inside a loop %s is extended by %s, which contains %s itself: the value doubles on every iteration, so n elements produce about 2^n bytes — parsing time and memory are exponential in the input size", acc.Name(), types.ExprString(as.Rhs[0]), acc.Name()))
+				c.bad(R, d.name+"#"+types.TypeString(acc.Type(), func(p *types.Package) string { return p.Name() })+"-accumulator", c.P.Pos(as.Pos()), fmt.Sprintf("inside a loop %s is extended by %s, which contains %s itself: the value doubles on every iteration, so n elements produce about 2^n bytes — parsing time and memory are exponential in the input size", acc.Name(), types.ExprString(as.Rhs[0]), acc.Name()))
 				return true
 			})
 			return true
